@@ -83,8 +83,9 @@ def main(tier):
             feats = set(rec.get("feat", []))
             excused_core = any(f in c01 for f in feats)
             for name, o in runs.items():
-                obs = (o["status"], o["value"], tuple(o["orders"]))
-                bobs = (base["status"], base["value"], tuple(base["orders"]))
+                # (the exported value is read back through each driver's own API after the run: a run that is not finalised shows here)
+                obs = (o["status"], o["value"], tuple(o["orders"]), o.get("export", ""))
+                bobs = (base["status"], base["value"], tuple(base["orders"]), base.get("export", ""))
                 if name.startswith("role_"):
                     # a module in a dependency role yields its value through the importer: compare value and export
                     obs = (o["status"], o["value"]); bobs = (base["status"], base["export"] if base["status"] == "COMPLETE" else base["value"])
@@ -149,6 +150,41 @@ def main(tier):
     c.cov["rule"] = "%d sync + %d async seeded MiniJS programs x 8 drivers/roles {prepare+step, eval, step+host reads, C API run, C API step, dependency role (native, C API), internal source module}; observables: terminal status, completion value, exported value, order payload sequence" % (n, n)
     c.assumptions += ["programs collect their own log (in-program tagger) because the C API path has no host-native logging module; the tagger runs on every driver alike",
                       "disagreement with MiniJS.tla itself is C01's business and only counted here"]
+    # ---- the command line driver: the same file through the plain loop and through the loops used with --max-depth / --timeout
+    import subprocess, tempfile, shutil
+    cli_dir = os.path.join(vlib.BUILD, "target-cli")
+    env = dict(os.environ, CARGO_NET_OFFLINE="true")
+    pr = subprocess.run(["cargo", "build", "--offline", "--bin", "tsrun", "--target-dir", cli_dir], cwd="/repo", env=env, stdout=subprocess.PIPE, stderr=subprocess.STDOUT, text=True, timeout=2400)
+    cli = os.path.join(cli_dir, "debug", "tsrun")
+    if pr.returncode != 0 or not os.path.exists(cli): vlib.tool_error("building the tsrun command line binary failed:\n" + pr.stdout[-2000:])
+    CLI_PROGS = [
+        'console.log("start"); async function main() { await null; console.log("working"); return 42; }\nmain();',
+        'Promise.resolve({ a: 1 });', 'Promise.resolve(1).then((v) => v + 1);', 'Promise.reject(new Error("r")).catch((e) => e.message);',
+        'const xs = [1, 2, 3].map((x) => x * 2); console.log(xs.join()); xs;', 'let s = 0; for (let i = 0; i < 10; i++) s += i; s;', 'console.log("only log");',
+        'function f(n: number): number { return n === 0 ? 0 : 1 + f(n - 1); } f(200);', '({ k: [1, { z: null }], u: undefined });', '"a string";', 'throw new RangeError("uncaught");',
+        'null;', 'undefined;', 'new Map([[1, 2]]);', '[Promise.resolve(3)];', 'async function g() { throw new Error("async boom"); }\ng();', 'class A { x = 1; }\nnew A();', 'Symbol("s").toString();',
+    ]
+    tmpd = tempfile.mkdtemp(prefix="c19cli", dir=vlib.BUILD)
+    cli_ok = 0; cli_n = 0
+    try:
+        for i, src in enumerate(CLI_PROGS):
+            path = os.path.join(tmpd, "p%d.ts" % i); open(path, "w").write(src + "\n")
+            outs = {}
+            for name, extra in (("plain", []), ("max-depth", ["--max-depth", "100000"]), ("timeout", ["--timeout", "600000"])):
+                try:
+                    r = subprocess.run([cli] + extra + [path], capture_output=True, text=True, timeout=60)
+                    outs[name] = (r.returncode, r.stdout, r.stderr.replace(tmpd, "<dir>"))
+                except subprocess.TimeoutExpired:
+                    outs[name] = ("TIMEOUT", "", "")
+            cli_n += 1
+            if len({v for v in outs.values()}) == 1: cli_ok += 1; continue
+            other = next(nm for nm in outs if outs[nm] != outs["plain"])
+            c.report({"kind": "entry", "driver": "cli-" + other, "orders": False, "base_status": "cli-plain", "status": "differs"}, {"source": src, "outputs": {k_: list(v) for k_, v in outs.items()}},
+                     "the command line prints different things for the same file: plain -> %r, --%s -> %r\n  program: %s" % (outs["plain"][:2], other, outs[other][:2], src[:200]))
+    finally:
+        shutil.rmtree(tmpd, ignore_errors=True)
+    log("command line: %d programs x {plain, --max-depth, --timeout}: %d print the same" % (cli_n, cli_ok))
+    c.cov["cli_programs"] = cli_n
     c.finish()
 
 
